@@ -364,6 +364,23 @@ class HamiltonianDisplacementMove(
         """
         return Verlet()
 
+    def to_dict(self) -> dict[str, Any]:
+        """
+        Convert the `HamiltonianDisplacementMove` object to a dictionary. The constructor
+        does not take `apply_constraints`, so it is stored as an attribute. The
+        `distribution` callable is not serialized.
+
+        Returns
+        -------
+        dict[str, Any]
+            A dictionary representation of the `HamiltonianDisplacementMove` object.
+        """
+        dictionary = super().to_dict()
+        attributes = dictionary.setdefault("attributes", {})
+        attributes["apply_constraints"] = dictionary["kwargs"].pop("apply_constraints")
+
+        return dictionary
+
 
 class CompositeDisplacementMove(CompositeMove[DisplacementMove]):
     """
